@@ -103,6 +103,10 @@ E2_BLOCKS = {
     # initial condition stated for the time axis itself: the automatic one (t = k is supplied by the parser) and a user-defined one
     'auto-time-ic': ("x = G\nL = x(k-1)\nd = x + 1\nt(0) = %(ic)s\nexogenous", 't'),
     'user-time-ic': ("x = G\nt = k + 10\nL = t(k-1)\nt(0) = %(ic)s\nexogenous", 't'),
+    # the spelling with blanks before the marker, which the parser documents as accepted ('x (0) = 1.'): endogenous, lagged and decorative variables
+    'endo-spaced': ("x = G\nL = x(k-1)\nd = x + 1\nx (0) = %(ic)s\nexogenous", 'x'),
+    'affine-spaced': ("x = 0.25*x + G\nL = x(k-1)\nd = x + L\nL  (0) = %(ic)s\nErr_Tolerance = 0.05\nexogenous", 'L'),
+    'deco-spaced': ("x = G\ny = 0.25*x + 1\nd = y + x\n d (0)  = %(ic)s\nexogenous", 'd'),
 }
 USER_TIME = ('time', 'user-time-ic')
 
@@ -183,7 +187,7 @@ def e2_cases(tier):
     out = []
     for shape in E2_BLOCKS:
         for T in ((0, 1, 2) if tier == 'quick' else (0, 1, 2, 3)):
-            if shape == 'affine' and T > (1 if tier == 'quick' else 2):
+            if shape.startswith('affine') and T > (1 if tier == 'quick' else 2):
                 continue      # the damped loop of a genuinely iterated block multiplies paths per period
             for nval in (T, T + 1, T + 2):
                 for ic in ((-2.5, 7.0) if tier == 'quick' else (-2.5, 0.0, 7.0)):
